@@ -22,7 +22,7 @@ Schedule (all CrossHair-symbolic): num_slots (1..2), lifetime (1..LMAX); per ste
 LOADER = the earliest lookup task blocked on a pending load of its key (in the repository's code that is the task
 whose lookup created the load), FOLLOWER = a later task blocked on the same key.  mode 0: every schedule (the claim);
 mode 1: >= 1 cancel and every cancel hits a LOADER; mode 2: >= 1 cancel and every cancel hits a FOLLOWER (both are
-sub-families of mode 0, run at small k so that each mechanism is reported under its own name).  mode 0: no cancel hits a FOLLOWER; mode 1: some cancel hits a FOLLOWER, none a LOADER; mode 2: both.
+sub-families of mode 0, run at small k so that each mechanism is reported under its own name).
 Oracle (what C26 states):
   bounded   the cache never holds more than num_slots entries (len of its entry dict, at every step)
   fresh     a returned value finished loading less than `lifetime` ago, and is a value for the key asked
